@@ -464,12 +464,13 @@ fn derive_func_op_shape(def: &FuncOpDef, symbol_table: &mut BTreeMap<Rc<str>, Sh
             let func_shape = func.derive_shape(symbol_table);
             // target must be a list, tuple or string
             match &target_shape {
-                Shape::List(_) | Shape::Hole(_) => {}
+                Shape::List(_) => {}
                 // Mapping over a string yields a string.
                 Shape::Str(_) => return Shape::Str(pos.clone()),
                 // Mapping over a tuple yields a tuple whose fields we can not
                 // know statically. The same goes for a narrowed target.
-                Shape::Tuple(_) | Shape::Narrowed(_) | Shape::Import(_) => {
+                // An unknown target may be any of the three.
+                Shape::Tuple(_) | Shape::Narrowed(_) | Shape::Import(_) | Shape::Hole(_) => {
                     return Shape::Narrowed(NarrowedShape {
                         pos: pos.clone(),
                         types: NarrowingShape::Any,
@@ -511,7 +512,7 @@ fn derive_func_op_shape(def: &FuncOpDef, symbol_table: &mut BTreeMap<Rc<str>, Sh
                         types: NarrowingShape::Any,
                     })
                 }
-                Shape::Hole(_) => Shape::List(NarrowedShape {
+                Shape::Hole(_) => Shape::Narrowed(NarrowedShape {
                     pos: pos.clone(),
                     types: NarrowingShape::Any,
                 }),
